@@ -92,6 +92,9 @@ Scale(x, y, side) == "scale" \in OPS /\ More /\ Bound(y)
 \* x += y : augmented assignment REBINDS x to a fresh object; everything that referred to the old object is untouched
 Aug(x, y) == /\ "aug" \in OPS /\ More /\ Bound(x) /\ Bound(y) /\ LenOf(x) = LenOf(y)
              /\ Fresh(x, Ty(x), [i \in 1 .. LenOf(x) |-> Val(x)[i] + Val(y)[i]], <<"aug", x, y>>, lastabs)
+\* x *= 2 (scalar operand): REBINDS x to a fresh object as well -- aliases and component views of the old object are untouched
+AugScalar(x) == /\ "augscalar" \in OPS /\ More /\ Bound(x)
+                /\ Fresh(x, Ty(x), [i \in 1 .. LenOf(x) |-> 2 * Val(x)[i]], <<"augscalar", x>>, lastabs)
 \* numpy function applied: x = np.negative(y)
 Ufunc(x, y) == "ufunc" \in OPS /\ More /\ Bound(y)
                /\ Fresh(x, Ty(y), [i \in 1 .. LenOf(y) |-> -Val(y)[i]], <<"ufunc", x, y>>, lastabs)
@@ -129,7 +132,7 @@ AbsOf(x) == /\ "abs" \in OPS /\ More /\ Bound(x)
 Next ==
     \E x, y, z \in Names :
         \/ Copy(x, y) \/ Alias(x, y) \/ Bin(x, y, z, "add") \/ Bin(x, y, z, "sub") \/ Scale(x, y, "l") \/ Scale(x, y, "r")
-        \/ Aug(x, y) \/ Ufunc(x, y) \/ OutArg(x, y, z) \/ SetAll(x, y) \/ SetItem(x) \/ Comp(x, y, 0) \/ Comp(x, y, 1) \/ AbsOf(x)
+        \/ Aug(x, y) \/ AugScalar(x) \/ Ufunc(x, y) \/ OutArg(x, y, z) \/ SetAll(x, y) \/ SetItem(x) \/ Comp(x, y, 0) \/ Comp(x, y, 1) \/ AbsOf(x)
 
 Spec == Init /\ [][Next]_vars
 
